@@ -83,23 +83,31 @@ def signature(case, o):
 
 # ---- corpus --------------------------------------------------------------------------
 
-K1_SCHED = ['c0', 'c0', 'c0'] + ['jc0'] * 7 + ['c1', 'c1', 'c1', 'c1']
+K1_A = ["c0", "c0", "c1"] + ["jc0"] * 8 + ["c1", "c1"] + ["jc0"] * 6 + ["c0"]
+K1_B = ["c0", "c0", "c1"] + ["jc0"] * 8 + ["c1", "c1", "jc0", "jc0", "c0"]
+M3_SCHED = (["c0", "c0", "c1", "c1", "c2", "c2"] + ["jc0"] * 7 + ["jc1", "jc1", "jc0", "jc0", "jc0", "c0", "jc1", "jc1", "jc1",
+            "jc2", "jc2", "jc1", "jc1", "jc1", "jc1", "c1"] + ["jc2"] * 5 + ["c2"])
 
 
 def corpus():
     return [
         # K1 (design-notes/e1.py): caller 1 sees L running because caller 0 BORROWED it, schedules its awaitable
         # there; caller 0's awaitable finishes first, L goes idle, caller 1 never completes
-        mk('idle', [['ret', 5], ['ret', 50]], ['coro', 'coro'], K1_SCHED),
-        mk('idle', [['ret', None], ['raise', 50]], ['task', 'future'], K1_SCHED),
+        mk('idle', [['ret', 5], ['ret', 50]], ['coro', 'coro'], K1_A),
+        mk('idle', [['ret', None], ['raise', 50]], ['task', 'future'], K1_B),
         # seeded C17-m1: both pool threads miss the unlocked table read before either creates the lock
-        mk('idle', [['ret', 5], ['ret', 5]], ['coro', 'coro'], ['c0', 'c0', 'c0', 'c1', 'c1', 'c1', 'jc0', 'jc1'] + ['jc0'] * 5 + ['jc1'] * 5),
-        mk('race', [['ret', 5], ['ret', None]], ['coro', 'coro'], ['m', 'c0', 'c0', 'c0', 'jm', 'jc0'] + ['jm'] * 5 + ['jc0'] * 5),
+        mk('idle', [['ret', 5], ['ret', 5]], ['coro', 'coro'], ['c0', 'c0', 'c1', 'c1', 'jc0', 'jc0', 'jc1', 'jc1']),
+        mk('race', [['ret', 5], ['ret', None]], ['coro', 'coro'], ['m', 'c0', 'c0', 'jm', 'jm', 'jc0', 'jc0']),
         # seeded C17-m2: an awaitable that RAISES on the borrow path, then another call on the same idle loop
-        mk('idle', [['raise', 5], ['ret', 5]], ['coro', 'coro'], ['c0'] * 3 + ['jc0'] * 14 + ['c0'] * 3),
-        mk('idle', [['ret', 0], ['raise', None], ['ret', 5]], ['coro', 'task', 'coro'], ['c1'] * 3 + ['jc1'] * 14 + ['c1'] * 2),
+        mk('idle', [['raise', 5], ['ret', 5]], ['coro', 'coro'], ['c0'] * 2 + ['jc0'] * 16 + ['c0'] * 2),
+        mk('idle', [['ret', 0], ['raise', None], ['ret', 5]], ['coro', 'task', 'coro'], ['c1'] * 2 + ['jc1'] * 16 + ['c1'] * 2),
+        # seeded C17-m3: A finishes, B was queued on A's lock and now runs L, C reads the table only then
+        mk('idle', [['ret', None], ['ret', 50], ['raise', None]], ['coro', 'coro', 'coro'], M3_SCHED),
+        # seeded C17-m4: the user thread goes on right after the forever-thread took L's lock, before it runs L
+        mk('forever', [['ret', 5], ['raise', None]], ['coro', 'coro'], ['m'] + ['jm'] * 7 + ['m'] * 4),
+        mk('race', [['ret', 5]], ['coro'], ['m'] + ['jm'] * 7 + ['m'] * 3 + ['c0'] * 3),
         # borrowers queue on the per-loop lock
-        mk('idle', [['ret', 50], ['raise', 5]], ['coro', 'coro'], ['c0', 'c0', 'c0', 'c1', 'c1', 'c1'] + ['jc0'] * 8 + ['jc1'] * 4),
+        mk('idle', [['ret', 50], ['raise', 5]], ['coro', 'coro'], ['c0', 'c0', 'c1', 'c1'] + ['jc0'] * 9 + ['jc1'] * 4),
         # the loop_in_thread doctest shape, two callers, and the racing start
         mk('forever', [['ret', 5], ['raise', 0]], ['task', 'coro']),
         mk('race', [['ret', 50], ['raise', 5]], ['coro', 'future']),
